@@ -353,7 +353,8 @@ def run_unit(unit, ctx):
         from metomi.isodatetime.parsers import TimePointParser
         parser = TimePointParser(allow_truncated=True, default_to_unknown_time_zone=True)
         ps = p_pool(kind, "small", ctx.tier)[:6]
-        shapes = [{"time": tm, "day": {}, "tz": z} for tm in time_only_shapes("quick")[::7] for z in (None, [1, 0])]
+        shapes = [{"time": tm, "day": {}, "tz": z} for tm in time_only_shapes("quick")[::7]
+                  for z in (None, [1, 0], [0, 0], [-5, -30])]   # [0, 0] is spelled "Z": a known zone
         shapes += [{"time": tm, "day": dy, "tz": None} for dy in day_shapes("quick")[::5] for tm in DAY_TIME_SHAPES]
         for t in shapes:
             text = t_text(t)
